@@ -296,6 +296,7 @@ func checkC04(w *World, r *Report) {
 	checkParseAlwaysParses(w, r, "R04.8")
 	checkRenderReturnsBufferText(w, r)
 	checkSourceReachesScannerUnchanged(w, r)
+	checkScannerContextRestored(w, r)
 }
 
 func onlyDebugRefs(v ssa.Value) bool {
@@ -847,4 +848,82 @@ func checkRenderReturnsBufferText(w *World, r *Report) {
 		}
 	}
 	r.floor("top-level Render methods returning a string", n, 1)
+}
+
+// checkScannerContextRestored — R04.11: a scan of a tag's inside gives the tokenizer back as it
+// found it.  A function that switches the tokenizer's source to a piece of text of its own
+// (stores a parameter into ZeroAllocTokenizer.source after having saved the old value) stores the
+// source again on every path to every return: an early return from the middle of the expression
+// scan leaves the tokenizer looking at the tag's inside, and every byte of literal text after the
+// tag is lost.
+func checkScannerContextRestored(w *World, r *Report) {
+	n := 0
+	for _, fn := range w.pkgFuncs() {
+		var switches []*ssa.Store
+		isSrcStore := func(in ssa.Instruction) (*ssa.Store, bool) {
+			st, ok := in.(*ssa.Store)
+			if !ok {
+				return nil, false
+			}
+			fa, ok := st.Addr.(*ssa.FieldAddr)
+			if !ok {
+				return nil, false
+			}
+			if t, f := fieldOfAddr(fa); t != "ZeroAllocTokenizer" || f != "source" {
+				return nil, false
+			}
+			return st, true
+		}
+		instrsOf(fn, func(in ssa.Instruction) {
+			if st, ok := isSrcStore(in); ok {
+				if _, isP := unspill(st.Val).(*ssa.Parameter); isP {
+					// only switching functions: they also read the old source (save it)
+					switches = append(switches, st)
+				}
+			}
+		})
+		if len(switches) == 0 {
+			continue
+		}
+		// does the function save the old source? (a load of .source before the switch)
+		saves := false
+		instrsOf(fn, func(in ssa.Instruction) {
+			if u, ok := in.(*ssa.UnOp); ok {
+				if _, ok := fieldLoad(u, "ZeroAllocTokenizer", "source"); ok {
+					for _, sw := range switches {
+						if u.Block() == sw.Block() && instrIndex(u) < instrIndex(sw) || u.Block() != sw.Block() && u.Block().Dominates(sw.Block()) {
+							saves = true
+						}
+					}
+				}
+			}
+		})
+		if !saves {
+			continue // a constructor / reset (GetTokenizer): nothing to give back
+		}
+		for _, sw := range switches {
+			n++
+			bad := ""
+			instrsOf(fn, func(in ssa.Instruction) {
+				if _, ok := in.(*ssa.Return); !ok || bad != "" {
+					return
+				}
+				restored := func(x ssa.Instruction) bool {
+					st, ok := isSrcStore(x)
+					return ok && st != sw
+				}
+				found, path := existsPathFromAvoiding(fn, sw, in, restored, nil)
+				if found {
+					bad = w.posOf(in.Pos()) + " (path " + strings.Join(path, " → ") + ")"
+				}
+			})
+			construct := "the tokenizer's source is restored before every return"
+			if bad == "" {
+				r.ok("R04.11", ssaName(fn), construct, w.posOf(sw.Pos()), "every path from the switch to a return stores the source again", true)
+			} else {
+				r.bad("R04.11", ssaName(fn), construct, w.posOf(sw.Pos()), "the function returns at "+bad+" with the tokenizer still looking at the piece of text it was handed: the scan of the template goes on inside that text, and the literal text that follows the tag is never emitted")
+			}
+		}
+	}
+	r.floor("switches of the tokenizer's source", n, 1)
 }
